@@ -244,9 +244,10 @@ theorem VInv.step {sym : DSymData} {done : Nat → Nat → Prop} (inv : VInv ds 
   have hset : ValidSet ds := by rw [← inv.dset]; exact hvs.set
   unfold vsInner
   simp only [hv i r hi hr.1 hr.2]
-  rw [setV_valid hvs (by rw [hdim]; exact hi) hr.1 (by rw [hsize]; exact hr.2)]
+  have hsv := setV_valid (x := V i r) hvs (by rw [hdim]; exact hi) hr.1 (by rw [hsize]; exact hr.2)
+  rw [hsv]
   refine ⟨_, rfl, ?_, inv.dset, ?_⟩
-  · exact ⟨hvs.set, hvs.far, hvs.index_eq, hvs.rs_eq, by simpa using hvs.vs_size⟩
+  · exact hvs.setV hsv
   · intro i' d hi' hd1 hd2 hex
     show (sym.orbitVs.setIfInBounds (sym.ixAt i r) (V i r)).getD (sym.ixAt i' d) 0 = V i' d
     rw [getD_setIfInBounds]
